@@ -222,3 +222,13 @@ pub proof fn lemma_bang_term_prefix(ty: BangType, t: Seq<u8>, n: int, k: int)
 {
     assert(t.subrange(0, n).subrange(0, k) =~= t.subrange(0, k));
 }
+
+impl BangType {
+    pub open spec fn spec_to_err(&self) -> SyntaxError {
+        match self {
+            BangType::CData => SyntaxError::UnclosedCData,
+            BangType::Comment => SyntaxError::UnclosedComment,
+            BangType::DocType(_) => SyntaxError::UnclosedDoctype,
+        }
+    }
+}
